@@ -457,7 +457,7 @@ pub fn run(ctx: &Ctx) -> ! {
          Non-trivial = library verdict is parse error, compile error, fails-validation or valid (expected exit status \
          and output-file presence are then defined)",
         case,
-        ctx.pick(192, 4000),
+        ctx.pick(192, 2000),
         check,
     );
     rep.finish()
